@@ -18,7 +18,7 @@ import (
 var vpCniArgsFamily = []string{
 	"", "{}", "null", "[]", "{", `"x"`, `{"request_ip_range":[]}`, `{"request_ip_range":[[]]}`, `{"request_ip_range":"x"}`,
 	`{"request_ip_range":[["10.1.0.10"]]}`, `{"request_ip_range":[["10.1.0.12~10.1.0.10"]]}`, `{"request_ip_range":[["10.1.0.10~10.1.0.12"],["10.1.0.11"]]}`,
-	`{"request_ip_range":[["255.255.255.254~255.255.255.255"]]}`, `{"request_ip_range":[["0.0.0.0~0.0.0.1"]]}`, `{"request_ip_range":[["::1"]]}`,
+	`{"request_ip_range":[["255.255.255.254~255.255.255.255"]]}`, `{"request_ip_range":[["fd00::1"]]}`, `{"request_ip_range":[["0.0.0.0~0.0.0.1"]]}`, `{"request_ip_range":[["::1~::5"]]}`,
 	`{"common":{"ipinfos":[{"ip":null}]}}`, `{"common":{"ipinfos":[{}]}}`, `{"common":{"ipinfos":[{"ip":"10.1.0.10/24","vlan":2,"gateway":"10.1.0.1"}]}}`,
 	`{"common":{"ipinfos":[{"ip":"10.9.9.9/24","vlan":70000}]}}`,
 }
@@ -40,7 +40,7 @@ func vpAnyPod(name, uid string, phase corev1.PodPhase) *corev1.Pod {
 	pod := &corev1.Pod{ObjectMeta: metav1.ObjectMeta{Name: name, Namespace: vpNS, UID: types.UID(uid)}}
 	nOwners, nArgs := len(vpOwnerFamily), len(vpCniArgsFamily)
 	if verifTier() == 0 {
-		nOwners, nArgs = 6, 13 // quick: the first 6 owner lists and 13 annotation texts; thorough: all
+		nOwners, nArgs = 6, 14 // quick: the first 6 owner lists and 14 annotation texts (incl. a genuine IPv6 address); thorough: all
 	}
 	pod.OwnerReferences = vpOwnerFamily[nondetChoice(nOwners)]
 	switch nondetChoice(3) {
@@ -63,7 +63,7 @@ func vpAnyPod(name, uid string, phase corev1.PodPhase) *corev1.Pod {
 	return pod
 }
 
-// BOUND: topology 0; pod name over {ss-0, x, a-}; owner references over 6 (quick) or 9 lists (none, StatefulSet, ReplicaSet with/without dash, "-", custom kind, empty names/kinds, two owners); annotations absent / empty / {policy over 4 texts (symbolic), cni args over 13 (quick) or 19 texts (invalid JSON, wrong shapes, reversed, overlapping, boundary and IPv6 ranges, null ip infos), optional pool over 3 texts}; workloads {all present with symbolic replicas/size 0..2, none}; operations Filter (+Bind on an approved node), Bind without Filter, UpdatePod over phase pairs, DeletePod + event handling, syncPodIP of a running pod; then resync and a follow-up call
+// BOUND: topology 0; pod name over {ss-0, x, a-}; owner references over 6 (quick) or 9 lists (none, StatefulSet, ReplicaSet with/without dash, "-", custom kind, empty names/kinds, two owners); annotations absent / empty / {policy over 4 texts (symbolic), cni args over 14 (quick) or 20 texts (invalid JSON, wrong shapes, reversed, overlapping, boundary and IPv6 ranges, null ip infos), optional pool over 3 texts}; workloads {all present with symbolic replicas/size 0..2, none}; operations Filter (+Bind on an approved node), Bind without Filter, UpdatePod over phase pairs, DeletePod + event handling, syncPodIP of a running pod; then resync and a follow-up call
 func VerifC18_q_pluginSurface() {
 	w := vpNewWorld(0, false)
 	if err := w.configure(); err != nil {
